@@ -11,6 +11,8 @@ NameOfAll == [x \in {"c1", "c2", "c3", "v1", "v2", "v3", "u1", "u2", "u3"} |-> I
 
 NameOfWide == [x \in {"c1", "c2", "c3", "v1", "v2", "v3", "v4", "u1", "u2", "u3"} |-> IF x \in {"c3", "v3", "u3"} THEN "b" ELSE "a"]
 
+NameOfNameless == [x \in {"c1", "c2", "c3", "v1", "v2", "v3", "u1", "u2", "u3"} |-> IF x \in {"c2", "c3", "u2"} THEN "" ELSE IF x \in {"v3", "u3"} THEN "b" ELSE "a"]
+
 TInit == Init /\ l = 1 /\ tainted = FALSE
 
 Ev == TraceLog[l]
